@@ -100,6 +100,10 @@ def frames_of(spec):
     data = pd.DataFrame(np.array(spec["prices"], dtype=float), index=idx, columns=spec["tickers"])
     extras = {}
     for name, f in spec["extras"].items():
+        if "table" in f:
+            t = f["table"]
+            extras[name] = pd.DataFrame({"date": [idx[i] for i in t["date_rows"]]}, index=list(t["index"]))
+            continue
         if "dict" in f:
             extras[name] = {k: pd.DataFrame(np.array(g["values"], dtype=float), index=idx, columns=g["cols"]) for k, g in f["dict"].items()}
             continue
@@ -357,6 +361,17 @@ def gen_stack(rng, rs, spec, names, priced, prefix, opts, is_child=False):
     else:
         st.append({"$run_always": {"a": "RebalanceOverTime", "args": [rng.randint(2, 5)]}} if rng.random() < 0.5 else {"a": "RebalanceOverTime", "args": [rng.randint(2, 5)]})
         desc.append("rot")
+    if opts.get("closeroll") and not is_child and len(names) >= 2 and rng.random() < opts["closeroll"]:
+        # matured names are closed and kept out of later selections
+        k = rng.randint(1, len(names) - 1)
+        fn = prefix + "cd"
+        spec["extras"][fn] = {"table": {"index": rng.sample(list(names), k), "date_rows": [rng.randint(2, nd - 2) for _ in range(k)]}}
+        for i_, a_ in enumerate(st):
+            if isinstance(a_, dict) and a_.get("a", "").startswith("Weigh"):
+                st.insert(i_, {"a": "SelectActive"})
+                break
+        st.insert(0, {"$run_always": {"a": "ClosePositionsAfterDates", "args": [fn]}})
+        desc.append("closeroll")
     if opts.get("risk") and not is_child and len(priced) >= 2 and rng.random() < opts["risk"]:
         measures = ["M%d" % i for i in range(rng.randint(1, min(2, len(priced))))]
         hedges = rng.sample(priced, len(measures))
